@@ -33,7 +33,7 @@ func init() {
 		ID: "C18", Gen: genC18, Run: runC18, Quick: 700, Thorough: 150000,
 		Real: []string{"pkg/exporter InitExportingProcess TLS/DTLS client configuration (createClientConfig, dtls.Config)", "pkg/collector TLS server configuration (createServerConfig, client-certificate enforcement) and DTLS listener", "crypto/tls, crypto/x509, pion/dtls handshakes over the simulated network", "message path exporter -> collector for the delivered-messages clauses"},
 		Stub: []string{"OS sockets (simnet)", "wall clock (synctest bubble; moved across certificate validity windows = clock skew)", "tls.Dial's ServerName defaulting (simnet.TlsDial)", "adversarial peers: harness TLS server with capped version, plaintext sender, plaintext listener"},
-		Rule: "configuration matrix sampled by seed: server certificate {trusted, other CA, self-signed, expires day 20, valid from day 10, wrong SAN, no SAN, DNS-SAN only} x ServerName {unset, matching, mismatching} x client certificate {none, trusted, other CA, expired} x collector client-CA {set, unset} x {tls, dtls} x handshake day {0, 15, 25} x peer max version {1.1, 1.2, 1.3}, plus plaintext peers, re-use of one client-configuration object across sessions, and 2-3 exporting processes with different configurations (CA, name, client certificate, connection-check interval) one after the other against one long-lived collector; every session is non-trivial; distinct = distinct configuration cell sequence",
+		Rule: "configuration matrix sampled by seed: server certificate {trusted, other CA, self-signed, expires day 20, valid from day 10, wrong SAN, no SAN, DNS-SAN only} x ServerName {unset, matching, mismatching} x client certificate {none, trusted, other CA, expired} x collector client-CA {set, unset} x {tls, dtls} x handshake day {0, 15, 25} x peer max version {1.1, 1.2, 1.3} x collector certificate file {leaf, leaf + issuing CA}, plus plaintext peers, re-use of one client-configuration object across sessions, and 2-3 exporting processes with different configurations (CA, name, client certificate, connection-check interval) one after the other against one long-lived collector; every session is non-trivial; distinct = distinct configuration cell sequence",
 	})
 }
 
